@@ -11,7 +11,8 @@ package fasthttp
 //      seeded longer samples) is parsed under recover and a watchdog, reader-based parsers
 //      with every split into <= 3 pieces at token boundaries (sampled in quick tier), several
 //      bufio sizes and maxBodySize 1..4; a successful read must not consume more than it
-//      needs (a strict prefix of the consumed bytes giving the same result is an over-read).
+//      needs (a strict prefix of the consumed bytes, followed by a NUL, that is consumed exactly and
+//      gives the same result shows an over-read).
 
 import (
 	"bufio"
@@ -106,7 +107,7 @@ func c08ReqResult(req *Request) string {
 	} else {
 		body = string(req.Body())
 	}
-	return fmt.Sprintf("%s|%s|%q|%q", req.Header.Method(), req.Header.RequestURI(), req.Header.String(), body)
+	return fmt.Sprintf("%s|%s|%q|%q|%s", req.Header.Method(), req.Header.RequestURI(), req.Header.String(), body, req.URI().String())
 }
 
 func c08ReadRequest(in []byte, cuts []int, maxBody, bufSize int) c08ReadResult {
@@ -121,6 +122,32 @@ func c08ReadRequest(in []byte, cuts []int, maxBody, bufSize int) c08ReadResult {
 		return c08ReadResult{consumed: r.given - br.Buffered()}
 	}
 	return c08ReadResult{ok: true, res: c08ReqResult(&req), consumed: r.given - br.Buffered()}
+}
+
+// request read the way a streaming server does it: head, ContinueReadBodyStream, then the
+// handler drains the body stream
+func c08ReadRequestStream(in []byte, cuts []int, maxBody, bufSize int) c08ReadResult {
+	r := &c08Reader{chunks: c08Chunks(in, cuts)}
+	br := bufio.NewReaderSize(r, bufSize)
+	var req Request
+	err := req.Header.Read(br)
+	if err == nil {
+		err = req.ContinueReadBodyStream(br, maxBody, true)
+	}
+	var body []byte
+	if err == nil && req.bodyStream != nil {
+		body, err = io.ReadAll(io.LimitReader(req.bodyStream, 1<<16))
+		req.CloseBodyStream() //nolint:errcheck
+	}
+	if err != nil {
+		return c08ReadResult{consumed: r.given - br.Buffered()}
+	}
+	form := ""
+	if req.multipartForm != nil {
+		form = fmt.Sprintf("form%v", req.multipartForm.Value)
+	}
+	return c08ReadResult{ok: true, res: fmt.Sprintf("%s|%s|%q|%q|%s", req.Header.Method(), req.Header.RequestURI(), req.Header.String(), body, form),
+		consumed: r.given - br.Buffered()}
 }
 
 func c08ReadResponse(in []byte, cuts []int, maxBody, bufSize int) c08ReadResult {
@@ -152,7 +179,7 @@ type c08Parser struct {
 	nThor  int
 	seeds  [][]string                                                      // valid messages (token sequences) to mutate
 	read   func(in []byte, cuts []int, maxBody, bufSize int) c08ReadResult // reader-based
-	pure   func(in []byte)                                                // value parsers
+	pure   func(in []byte)                                                 // value parsers
 }
 
 func c08Parsers() []c08Parser {
@@ -167,7 +194,24 @@ func c08Parsers() []c08Parser {
 			},
 			toks: []string{"GET / HTTP/1.1\r\n", "POST /p HTTP/1.0\r\n", "Host: h\r\n", "Content-Length: 3\r\n", "Content-Length: 0\r\n",
 				"Transfer-Encoding: chunked\r\n", "Expect: 100-continue\r\n", "Content-Type: multipart/form-data; boundary=b\r\n",
-				"\r\n", "\n", "\r", "abc", "3\r\n", "0\r\n", "x", ":", " ", "--b\r\n", "--b--\r\n", "X-T: v\r\n"}},
+				"\r\n", "\n", "\r", "abc", "3\r\n", "0\r\n", "x", ":", " ", "--b\r\n", "--b--\r\n", "X-T: v\r\n",
+				// chunk-size lines at the edge of the integer range (15, 16, 17 hex digits) and bracketed hosts
+				"fffffffffffffff\r\n", "7fffffffffffffff\r\n", "8000000000000000\r\n", "ffffffffffffffff\r\n", "10000000000000000\r\n",
+				"Host: [::1]\r\n", "Host: [:1.2.3.4]:80\r\n", "Host: []\r\n", "Host: [fe80::1%25eth0]\r\n"}},
+		{name: "Request.ContinueReadBodyStream", nQuick: 2, nThor: 3, read: c08ReadRequestStream,
+			seeds: [][]string{
+				{"GET / HTTP/1.1\r\n", "Host: h\r\n", "\r\n"},
+				{"POST /p HTTP/1.0\r\n", "Content-Length: 3\r\n", "\r\n", "abc"},
+				{"GET / HTTP/1.1\r\n", "Host: h\r\n", "Transfer-Encoding: chunked\r\n", "\r\n", "3\r\n", "abc", "\r\n", "0\r\n", "X-T: v\r\n", "\r\n"},
+				{"GET / HTTP/1.1\r\n", "Host: h\r\n", "Expect: 100-continue\r\n", "Content-Length: 3\r\n", "\r\n", "abc"},
+				{"POST /p HTTP/1.0\r\n", "Content-Type: multipart/form-data; boundary=b\r\n", "Content-Length: 3\r\n", "\r\n", "abc"},
+			},
+			toks: []string{"GET / HTTP/1.1\r\n", "POST /p HTTP/1.0\r\n", "Host: h\r\n", "Content-Length: 3\r\n", "Content-Length: 0\r\n",
+				"Transfer-Encoding: chunked\r\n", "Expect: 100-continue\r\n", "Content-Type: multipart/form-data; boundary=b\r\n",
+				"\r\n", "\n", "\r", "abc", "3\r\n", "0\r\n", "x", ":", " ", "--b\r\n", "--b--\r\n", "X-T: v\r\n",
+				// chunk-size lines at the edge of the integer range (15, 16, 17 hex digits) and bracketed hosts
+				"fffffffffffffff\r\n", "7fffffffffffffff\r\n", "8000000000000000\r\n", "ffffffffffffffff\r\n", "10000000000000000\r\n",
+				"Host: [::1]\r\n", "Host: [:1.2.3.4]:80\r\n", "Host: []\r\n", "Host: [fe80::1%25eth0]\r\n"}},
 		{name: "Response.ReadLimitBody", nQuick: 3, nThor: 4, read: c08ReadResponse,
 			seeds: [][]string{
 				{"HTTP/1.1 200 OK\r\n", "Content-Length: 3\r\n", "\r\n", "abc"},
@@ -179,10 +223,11 @@ func c08Parsers() []c08Parser {
 			},
 			toks: []string{"HTTP/1.1 200 OK\r\n", "HTTP/1.1 100 Continue\r\n", "HTTP/1.0 204 No Content\r\n", "HTTP/1.1 304\r\n",
 				"Content-Length: 3\r\n", "Content-Length: 0\r\n", "Transfer-Encoding: chunked\r\n", "Transfer-Encoding: identity\r\n",
-				"Connection: close\r\n", "\r\n", "\n", "\r", "abc", "3\r\n", "0\r\n", "x", ":", " ", "X-T: v\r\n", "Trailer: X-T\r\n"}},
+				"Connection: close\r\n", "\r\n", "\n", "\r", "abc", "3\r\n", "0\r\n", "x", ":", " ", "X-T: v\r\n", "Trailer: X-T\r\n",
+				"fffffffffffffff\r\n", "7fffffffffffffff\r\n", "8000000000000000\r\n", "ffffffffffffffff\r\n", "10000000000000000\r\n"}},
 		{name: "RequestHeader.ReadTrailer", nQuick: 4, nThor: 5, read: c08ReadTrailer,
 			seeds: [][]string{{"X: y\r\n", "\r\n"}, {"X: y\r\n", "X: y\r\n", "\r\n"}},
-			toks: []string{"X: y\r\n", "Content-Length: 1\r\n", "\r\n", "\n", "\r", " ", "\t", ":", "x", "X-Forwarded-For: a\r\n"}},
+			toks:  []string{"X: y\r\n", "Content-Length: 1\r\n", "\r\n", "\n", "\r", " ", "\t", ":", "x", "X-Forwarded-For: a\r\n"}},
 		{name: "Cookie.ParseBytes", nQuick: 3, nThor: 5,
 			pure: func(in []byte) { var c Cookie; _ = c.ParseBytes(in); _ = c.String() },
 			toks: []string{"a", "=", ";", " ", "\"", ",", "expires", "max-age", "domain", "path", "samesite", "secure", "httponly", "partitioned",
@@ -196,7 +241,29 @@ func c08Parsers() []c08Parser {
 				_ = u2.Parse(in, []byte("/x"))
 				_ = u2.FullURI()
 			},
-			toks: []string{"a", "/", ":", "?", "#", "%", "@", "[", "]", ".", "..", "%2f", "%zz", "http", "//", " ", "\x00", "\xff", "\\", "80"}},
+			toks: []string{"a", "/", ":", "?", "#", "%", "@", "[", "]", ".", "..", "%2f", "%zz", "http", "//", " ", "\x00", "\xff", "\\", "80",
+				"::", "1.2.3.4", "%25eth0"}},
+		// bracketed (IP-literal) hosts: every string over the alphabet inside "[...]", with and
+		// without a port, as Host of URI.Parse, inside an absolute URI and as Host header of a request
+		{name: "URI.Parse/bracket-host", nQuick: 4, nThor: 6,
+			pure: func(in []byte) {
+				for _, host := range []string{"[" + string(in) + "]", "[" + string(in) + "]:8080", "[" + string(in)} {
+					var u URI
+					_ = u.Parse([]byte(host), []byte("/x"))
+					_ = u.String()
+					var u2 URI
+					_ = u2.Parse(nil, []byte("http://"+host+"/x?y"))
+					_ = u2.FullURI()
+					var req Request
+					if err := req.Read(bufio.NewReader(strings.NewReader("GET /x HTTP/1.1\r\nHost: " + host + "\r\n\r\n"))); err == nil {
+						_ = req.URI().String()
+					}
+					var r2 Request
+					r2.SetRequestURI("http://" + host + "/x")
+					_ = r2.URI().Host()
+				}
+			},
+			toks: []string{":", "::", "1", "ffff", "1.2.3.4", "127.0.0.1", "%25eth0", "%eth0", "g", ".", "0"}},
 		{name: "Args.ParseBytes", nQuick: 4, nThor: 6,
 			pure: func(in []byte) { var a Args; a.ParseBytes(in); _ = a.String(); _ = a.Peek("a") },
 			toks: []string{"a", "=", "&", "%", "+", ";", "%41", "%4", "\x00", "%00"}},
@@ -381,15 +448,19 @@ func TestVerifC08Parsers(t *testing.T) {
 				}
 				if res.ok {
 					st.okByP[p.name]++
-					// over-read: a strict prefix of the consumed bytes already is the same message
+					// over-read: if a strict prefix of the consumed bytes, followed by complete garbage
+					// lines that no grammar accepts (so that nothing depends on EOF tolerance), is consumed exactly up
+					// to its end and gives the same message, then the message ends there and the original
+					// call took bytes that follow the message it returned
 					for _, j := range []int{res.consumed - 1, res.consumed - 2} {
 						if j < 0 {
 							continue
 						}
+						probe := append(append([]byte(nil), in[:j]...), "\x00\r\n\r\n\x00\r\n\r\n"...)
 						var r2 c08ReadResult
-						st.guarded(p.name, in[:j], "prefix re-parse", func() { r2 = p.read(in[:j], nil, mb, bs) })
-						if r2.ok && r2.res == res.res {
-							st.viol("overread:"+p.name, fmt.Sprintf("%s on %q consumed %d bytes, but its first %d bytes alone give the same message (consumed %d): it read beyond the end of the message it returned",
+						st.guarded(p.name, probe, "prefix re-parse", func() { r2 = p.read(probe, nil, mb, bs) })
+						if r2.ok && r2.res == res.res && r2.consumed == j {
+							st.viol("overread:"+p.name, fmt.Sprintf("%s on %q consumed %d bytes, but its first %d bytes (followed by NUL CRLF CRLF garbage) give the same message with the reader at %d: it read beyond the end of the message it returned",
 								p.name, in, res.consumed, j, r2.consumed), vfRec{"input": string(in), "cuts": cuts, "maxBody": mb, "bufio": bs, "result": res.res})
 							break
 						}
